@@ -449,7 +449,7 @@ loop:
 				return nil, 0, ErrParseFrame
 			}
 			offsetp := int(binary.BigEndian.Uint16(data[index:index+2]) & 0x3fff)
-			if offsetp > len(data) {
+			if offsetp >= offset { // RFC 1035 4.1.4: a pointer refers to a prior occurrence
 				return nil, 0, ErrParseFrame
 			}
 			// This looks a little tricky, but actually isn't.  Because of how
